@@ -1,7 +1,7 @@
 (* C20 -- Nearest-source spreading returns true least-cost distances and sources. *)
 From Coq Require Import List Arith ZArith Bool.
 Import ListNotations.
-From PF Require Import Arr Spread SpreadSpec.
+From PF Require Import Arr Spread SpreadSpec SpreadOpt.
 Local Open Scope Z_scope.
 
 (* soundness, for every raster, mask, non-negative friction and step lengths: observation cells keep their
@@ -21,7 +21,40 @@ Theorem spread_sound : forall nrow ncol obs msk nodata frc dx dy hyp,
 Proof. exact SpreadSpec.spread_sound. Qed.
 Print Assumptions spread_sound.
 
+(* OPTIMALITY.  `apath s j D` (SpreadOpt.v): there is a path from the observation cell s (inside the mask) to j through
+   cells inside the mask by 8-neighbour steps inside the raster whose accumulated cost -- step length (dx, dy or the
+   diagonal) times the friction of the cell stepped FROM -- is D.  For every raster, mask, non-negative friction and
+   step lengths:
+   (upper)    every cell on such a path is reached (source <> -1) and its reported distance is <= D: no path beats it;
+   (attained) the reported distance of a reached cell inside the mask IS the cost of a path from the reported source.
+   Together: distance = minimum over paths of the accumulated step cost, attained from the reported source, whose value
+   the cell carries (spread_sound).  The queue is proved to run empty within the model's 10 n + 10 pops (every cell is
+   expanded at most once; ghost list of expanded cells). *)
+Theorem spread_upper : forall nrow ncol obs msk nodata frc dx dy hyp,
+  0 <= dx -> 0 <= dy -> 0 <= hyp -> (forall i, 0 <= match frc with None => 1 | Some fr => nth i fr 1 end) ->
+  length obs = (nrow * ncol)%nat ->
+  let '(out, src, dst) := spread2d nrow ncol obs msk nodata frc dx dy hyp in
+  forall s j D, apath nrow ncol obs msk nodata frc dx dy hyp s j D -> nth j src 0 <> -1 /\ nth j dst 0 <= D.
+Proof. exact SpreadOpt.spread_upper. Qed.
+Print Assumptions spread_upper.
+
+Theorem spread_attained : forall nrow ncol obs msk nodata frc dx dy hyp,
+  0 <= dx -> 0 <= dy -> 0 <= hyp -> (forall i, 0 <= match frc with None => 1 | Some fr => nth i fr 1 end) ->
+  length obs = (nrow * ncol)%nat ->
+  let '(out, src, dst) := spread2d nrow ncol obs msk nodata frc dx dy hyp in
+  forall j, (j < nrow * ncol)%nat -> nth j src 0 <> -1 -> mok msk j = true ->
+    apath nrow ncol obs msk nodata frc dx dy hyp (Z.to_nat (nth j src 0)) j (nth j dst 0).
+Proof. exact SpreadOpt.spread_attained. Qed.
+Print Assumptions spread_attained.
+
 (* smoke / non-vacuity: one observation in the corner of a 2x3 raster with 3-4-5 cells *)
 Example spread_example :
   spread2d 2 3 [7;0;0; 0;0;0] None 0 None 3 4 5 = ([7;7;7;7;7;7], [0;0;0;0;0;0], [0;3;6;4;5;8]).
 Proof. vm_compute. reflexivity. Qed.
+
+(* the premise of the optimality theorems is inhabited: the diagonal step from the observation to cell 4 costs 5 *)
+Example apath_example : apath 2 3 [7;0;0; 0;0;0] None 0 None 3 4 5 0 4 5.
+Proof.
+  change 4%nat with (nbr 3 0 (1, 1)). change 5 with (0 + cost None 3 4 5 0 (1, 1)).
+  apply ap_step; [apply ap_src; [simpl; auto with arith|reflexivity|reflexivity]|simpl; tauto|reflexivity|reflexivity].
+Qed.
